@@ -286,6 +286,11 @@ func runAsync(in input) hlib.Case {
 	cancel()
 	wg.Wait()
 	c.Obs = map[string]interface{}{"calls": prov.snapshot(), "answers": gotCount()}
+	callTerms := []string{}
+	for _, call := range prov.snapshot() {
+		callTerms = append(callTerms, coqSources(call))
+	}
+	c.Coq = hlib.App("AsyncCase", hlib.Z(int64(in.Cfg.Limit)), hlib.List(callTerms))
 	c.Nontrivial = len(submitted) >= 2 && len(prov.snapshot()) >= 2
 	return c
 }
